@@ -30,6 +30,7 @@ PROP = "C13"
 RUNS = {"quick": 1600, "thorough": 250000}
 BLOCK = {"quick": 20, "thorough": 500}
 WATCHDOG_S = 1200
+TRACE_SAMPLE = 0  # scenarios run in child processes; reach is reported as switch sites instead
 SHRINK_LISTS = ["threads", "switches"]
 RULE = (
     "thread runs (3 of 4): 2-4 real threads, one runnable at a time, pre-empted at pyrtcm source-line granularity by a "
